@@ -436,6 +436,74 @@ def claim_ports(ck):
     return None
 
 
+def judge_purge_dump(ck, dump):
+    """one dump of cmd/c13items: the real index table before and after the purge of dropped series, item by item"""
+    sc = dump.get("scenario")
+    # DIRECT ORACLE on the real table and the real reopen (the tie of C13_purge_pass_never_unhides_dropped): a pass that reported success
+    # and discarded the flushed ids of the deleted-series table must not leave an item of a dropped id behind, and after the reopen
+    # exactly the series that were not dropped are listed
+    if not dump.get("purge_error") and dump.get("deleted_table_items_left") == 0 and dump.get("pairs_of_dropped_ids_left", 0) > 0:
+        ck.violation({"kind": "direct-oracle", "what": "the purge pass reported success and the deleted-series table discarded its ids, but %d "
+                      "(head, id) pairs of dropped series are still in the index table (scenario %s)" % (dump["pairs_of_dropped_ids_left"], sc),
+                      "purge_items": {k: dump[k] for k in dump if k not in ("parts", "after", "deleted")},
+                      "rerun": "VERIF_SEED=%d harness/cmd/c13items %d" % (ck.seed, dump["series"])})
+    if dump.get("listed_after_reopen") != dump.get("expected_listed") or dump.get("dropped_listed_again"):
+        ck.violation({"kind": "direct-oracle", "what": "after the purge and a reopen of the index %s series are listed, %s expected; %s dropped "
+                      "series are found again by their own tag filter (scenario %s)"
+                      % (dump.get("listed_after_reopen"), dump.get("expected_listed"), dump.get("dropped_listed_again"), sc),
+                      "purge_items": {k: dump[k] for k in dump if k not in ("parts", "after", "deleted")},
+                      "rerun": "VERIF_SEED=%d harness/cmd/c13items %d" % (ck.seed, dump["series"])})
+    if dump.get("tsid_len") != 8:
+        ck.broken.append("C13 purge items: a marshaled tsid has %r bytes in the repository, the purge model (Purge.v isz) counts 8" % dump.get("tsid_len"))
+        return
+    if True:
+        def pl(xs):
+            return "[" + "; ".join(xs) + "]"
+        parts = pl([pl(["((%d, %d), %s)" % (x["h"], x["b"], pl([str(i) for i in x["ids"]])) for x in pt]) for pt in dump["parts"]])
+
+        def pcase(after):
+            return ("From Coq Require Import NArith List Bool. From OG Require Import C13.Purge C13.PurgeCorr.\n"
+                    "Import ListNotations. Open Scope N_scope.\nDefinition c := mkPC %d %s %s %s.\n"
+                    "Definition M := Eval vm_compute in purge_verdict c.\nPrint M.\n"
+                    % (dump["cap"], pl([str(i) for i in dump["deleted"]]), parts, pl(["(%d, %d)" % (a, b) for a, b in after])))
+        # canary: the table after the purge with one pair removed must agree with no variant
+        resi = ck.coq_eval_many([("purge_items", pcase(dump["after"])), ("purge_items_canary", pcase(dump["after"][1:]))], timeout=600)
+        verd = []
+        for rcx, ox in resi:
+            m = re.search(r"\(\s*(true|false)\s*,\s*(true|false)\s*,\s*(true|false)\s*,\s*(true|false)\s*,\s*\(\s*(\d+)\D+(\d+)\D+(\d+)", ox) if rcx == 0 else None
+            verd.append(None if not m else ([g == "true" for g in m.groups()[:4]], [int(g) for g in m.groups()[4:]]))
+        if verd[0] is None or verd[1] is None:
+            ck.broken.append("purge model evaluation failed: %s" % (resi[0][1] if verd[0] is None else resi[1][1])[-400:])
+        else:
+            (cur, readd, rows, both), sizes = verd[0]
+            cov = {"scenario": sc, "series": dump["series"], "dropped_series": dump["dropped_series"], "items_before": dump["items_before"],
+                                     "bytes_before": dump["bytes_before"], "blocks_before_at_least": dump["bytes_before"] // dump["cap"],
+                                     "rows_with_several_ids": dump["rows_with_several_ids"], "pairs_after": sizes[0],
+                                     "pairs_model_current": sizes[1], "pairs_model_repaired": sizes[2],
+                                     "variant_reproducing_the_table": ("current" if cur else "repaired" if both else "re-add only" if readd
+                                                                       else "rows only" if rows else "none")}
+            if any(verd[1][0]):
+                ck.broken.append("C13 purge evaluator canary: a table with one (head, id) pair removed still agrees with a model variant")
+            if dump["bytes_before"] < 2 * dump["cap"] or dump["rows_with_several_ids"] == 0:
+                ck.broken.append("C13 purge items: the generated index does not span several blocks / has no merged rows (%s)" % cov)
+            which = cov["variant_reproducing_the_table"]
+            if both:
+                pass                      # the repaired model = the specification (C13_purge_keeps_exactly_the_live_items)
+            elif sizes[0] != sizes[2] or which != "none":
+                # the table after the purge is not the live content (purge_spec, computed by the model that is proved equal to it)
+                if cur and fragment_finding(ck, F_PURGE):
+                    ck.known_finding(F_PURGE, "the physical purge of dropped series also removes index items of series that were not dropped")
+                else:
+                    ck.violation({"kind": "direct-oracle", "what": "after the purge of dropped series the index table holds %d (head, id) pairs, its "
+                                  "live content is %d pairs (item-level dump of the real table; model variant that reproduces it: %s)"
+                                  % (sizes[0], sizes[2], which), "purge_items": cov,
+                                  "rerun": "VERIF_SEED=%d harness/cmd/c13items %d" % (ck.seed, dump["series"])})
+            else:
+                ck.broken.append("correspondence C13 purge model / mergeset table: same number of pairs as the live content but a different "
+                                 "set, and no variant of the model reproduces it (%s)" % cov)
+            ck.cov["purge_items"][sc] = cov
+
+
 def setup():
     return 0
 
@@ -545,59 +613,13 @@ def main(ck):
     itemsb = ck.go_build("./cmd/c13items", "c13items")
     if itemsb and ok and not getattr(ck, "replay", None):
         rci, outi = ck.run([itemsb, "1500" if ck.tier == "quick" else "4000"], timeout=600)
-        dump = None
-        for l in outi.splitlines():
-            if l.startswith('{') and '"purge_items"' in l:
-                dump = json.loads(l)
-        if rci != 0 or dump is None:
-            ck.broken.append("harness c13items failed rc=%d: %s" % (rci, outi[-400:]))
-        elif dump.get("tsid_len") != 8:
-            ck.broken.append("C13 purge items: a marshaled tsid has %r bytes in the repository, the purge model (Purge.v isz) counts 8" % dump.get("tsid_len"))
-        else:
-            def pl(xs):
-                return "[" + "; ".join(xs) + "]"
-            parts = pl([pl(["((%d, %d), %s)" % (x["h"], x["b"], pl([str(i) for i in x["ids"]])) for x in pt]) for pt in dump["parts"]])
-
-            def pcase(after):
-                return ("From Coq Require Import NArith List Bool. From OG Require Import C13.Purge C13.PurgeCorr.\n"
-                        "Import ListNotations. Open Scope N_scope.\nDefinition c := mkPC %d %s %s %s.\n"
-                        "Definition M := Eval vm_compute in purge_verdict c.\nPrint M.\n"
-                        % (dump["cap"], pl([str(i) for i in dump["deleted"]]), parts, pl(["(%d, %d)" % (a, b) for a, b in after])))
-            # canary: the table after the purge with one pair removed must agree with no variant
-            resi = ck.coq_eval_many([("purge_items", pcase(dump["after"])), ("purge_items_canary", pcase(dump["after"][1:]))], timeout=600)
-            verd = []
-            for rcx, ox in resi:
-                m = re.search(r"\(\s*(true|false)\s*,\s*(true|false)\s*,\s*(true|false)\s*,\s*(true|false)\s*,\s*\(\s*(\d+)\D+(\d+)\D+(\d+)", ox) if rcx == 0 else None
-                verd.append(None if not m else ([g == "true" for g in m.groups()[:4]], [int(g) for g in m.groups()[4:]]))
-            if verd[0] is None or verd[1] is None:
-                ck.broken.append("purge model evaluation failed: %s" % (resi[0][1] if verd[0] is None else resi[1][1])[-400:])
-            else:
-                (cur, readd, rows, both), sizes = verd[0]
-                ck.cov["purge_items"] = {"series": dump["series"], "dropped_series": dump["dropped_series"], "items_before": dump["items_before"],
-                                         "bytes_before": dump["bytes_before"], "blocks_before_at_least": dump["bytes_before"] // dump["cap"],
-                                         "rows_with_several_ids": dump["rows_with_several_ids"], "pairs_after": sizes[0],
-                                         "pairs_model_current": sizes[1], "pairs_model_repaired": sizes[2],
-                                         "variant_reproducing_the_table": ("current" if cur else "repaired" if both else "re-add only" if readd
-                                                                           else "rows only" if rows else "none")}
-                if any(verd[1][0]):
-                    ck.broken.append("C13 purge evaluator canary: a table with one (head, id) pair removed still agrees with a model variant")
-                if dump["bytes_before"] < 2 * dump["cap"] or dump["rows_with_several_ids"] == 0:
-                    ck.broken.append("C13 purge items: the generated index does not span several blocks / has no merged rows (%s)" % ck.cov["purge_items"])
-                which = ck.cov["purge_items"]["variant_reproducing_the_table"]
-                if both:
-                    pass                      # the repaired model = the specification (C13_purge_keeps_exactly_the_live_items)
-                elif sizes[0] != sizes[2] or which != "none":
-                    # the table after the purge is not the live content (purge_spec, computed by the model that is proved equal to it)
-                    if cur and fragment_finding(ck, F_PURGE):
-                        ck.known_finding(F_PURGE, "the physical purge of dropped series also removes index items of series that were not dropped")
-                    else:
-                        ck.violation({"kind": "direct-oracle", "what": "after the purge of dropped series the index table holds %d (head, id) pairs, its "
-                                      "live content is %d pairs (item-level dump of the real table; model variant that reproduces it: %s)"
-                                      % (sizes[0], sizes[2], which), "purge_items": ck.cov["purge_items"],
-                                      "rerun": "VERIF_SEED=%d harness/cmd/c13items %d" % (ck.seed, dump["series"])})
-                else:
-                    ck.broken.append("correspondence C13 purge model / mergeset table: same number of pairs as the live content but a different "
-                                     "set, and no variant of the model reproduces it (%s)" % ck.cov["purge_items"])
+        dumps = [json.loads(l) for l in outi.splitlines() if l.startswith('{') and '"purge_items"' in l]
+        if rci != 0 or len(dumps) != 2:
+            ck.broken.append("harness c13items failed rc=%d dumps=%d: %s" % (rci, len(dumps), outi[-400:]))
+            dumps = []
+        ck.cov["purge_items"] = {}
+        for dump in dumps:
+            judge_purge_dump(ck, dump)
     th.join()
     rc, out = bb["res"]
     hs = [json.loads(l) for l in out.splitlines() if l.startswith('{"i"')]
